@@ -397,6 +397,8 @@ func (e *apiEnv) genTxn() {
 var hostileNames = [][]byte{
 	[]byte(""), []byte("a/b"), []byte("a/lease"), []byte("sys/idseq"), []byte("a\x00b"), bytes.Repeat([]byte("n"), 200), bytes.Repeat([]byte("n"), 201),
 	bytes.Repeat([]byte("n"), 300), []byte("caf\xc3\xa9"), []byte("bad\xff\xfe"), []byte("\xed\xa0\x80"), []byte("\xc0\xaf"), []byte("..")[:2], []byte("a b"), []byte("t1"), []byte("nope"),
+	// the limit is in BYTES (the name becomes part of a directory name): 100 two-byte characters fit, 101 and 150 do not
+	bytes.Repeat([]byte("\xc3\xa9"), 100), bytes.Repeat([]byte("\xc3\xa9"), 101), bytes.Repeat([]byte("\xc3\xa9"), 150),
 }
 
 // followerHas waits until the follower lists exactly the leader's tables.
